@@ -134,8 +134,8 @@ def c04_stage(name, docs, maxf, alpha, replay="C04"):
 
 def c04_stages(tier, seed):
     if tier == "quick":
-        return [c04_stage("small2", "{1,2,3,4,5,6,7,8,9}", 2, "small"), c04_stage("full1", "{1,2,3,4,5,6,7,8,9}", 1, "full")]
-    return [c04_stage("small3", "{1,2,3,4,5,6,7,8,9}", 3, "small"), c04_stage("full3", "{1,2,3,4,5,6,7,8,9}", 3, "full")]
+        return [c04_stage("small2", "{1,2,3,4,5,6,7,8,9,10,11}", 2, "small"), c04_stage("full1", "{1,2,3,4,5,6,7,8,9,10,11}", 1, "full")]
+    return [c04_stage("small3", "{1,2,3,4,5,6,7,8,9,10,11}", 3, "small"), c04_stage("full3", "{1,2,3,4,5,6,7,8,9,10,11}", 3, "full")]
 
 
 ALL_ARGS = '{"i","ni","fl","st","bo","id","e","ne","cu","li","lni","nli","lli","le","in","nin","lin","in2","in3"}'
